@@ -155,6 +155,27 @@ fn eval(v: &Value) -> Value {
             };
             fl(mk(&a[0]).energy(&mk(&a[1])))
         }
+        "LJShape2::energy" => {
+            // [[particle...], [particle...]] -> molecule energy and the plain sum over particle pairs
+            let mk = |x: &Value| {
+                let p: Vec<Value> = x.as_array().unwrap().clone();
+                LJ2 {
+                    position: nalgebra::Point2::new(f(&p[0]), f(&p[1])),
+                    sigma: f(&p[2]),
+                    epsilon: f(&p[3]),
+                    cutoff: if p[4].is_null() { None } else { Some(f(&p[4])) },
+                }
+            };
+            let ma = LJShape2 { name: "a".into(), items: a[0].as_array().unwrap().iter().map(mk).collect() };
+            let mb = LJShape2 { name: "b".into(), items: a[1].as_array().unwrap().iter().map(mk).collect() };
+            let mut sum = 0.;
+            for s in ma.items.iter() {
+                for o in mb.items.iter() {
+                    sum += s.energy(o);
+                }
+            }
+            json!({"energy": fl(ma.energy(&mb)), "pair_sum": fl(sum)})
+        }
         "Cell2::to_cartesian" => {
             let c = cell(&a[0]);
             let (x, y) = c.to_cartesian(f(&a[1]), f(&a[2]));
@@ -193,6 +214,22 @@ fn eval(v: &Value) -> Value {
                 "line" => go!(LineShape),
                 _ => go!(MolecularShape2),
             }
+        }
+        "Cell2::basis_ranges" => {
+            // [cell] -> for every degree of freedom [value, lower bound, upper bound], the bounds probed through the
+            // public Basis API (set_value clamps; the value is restored afterwards)
+            let c = cell(&a[0]);
+            let mut out = vec![];
+            for mut b in c.get_degrees_of_freedom() {
+                let v = b.get_value();
+                b.set_value(-1e300);
+                let lo = b.get_value();
+                b.set_value(1e300);
+                let hi = b.get_value();
+                b.set_value(v);
+                out.push(json!([fl(v), fl(lo), fl(hi)]));
+            }
+            json!(out)
         }
         "Cell2::periodic_images" => {
             // [cell, placement (9 entries), shells, zero] -> the images as matrices, in iteration order
